@@ -1,5 +1,5 @@
 CONSTANTS W = 32  MaxFile = 6  MaxDepth = 2  MaxVar = 3  Wrapping = FALSE  EndOf = "checked_add"
 INIT Init
 NEXT Next
-INVARIANTS Monotone InBounds OverlongIsError InLimit Linear Terminates
+INVARIANTS Monotone InBounds OverlongIsError InLimit BoundedAlloc Linear Terminates
 CHECK_DEADLOCK FALSE
